@@ -326,8 +326,11 @@ pub fn all_types(cap: usize) -> Vec<Box<dyn TypeRunner>> {
 		],
 		cap,
 		|_m: &Init, e: &[u8], off: usize| {
+			// global features (offset 2..) and local features are OR-ed: a bit present in one copy
+			// may be dropped from the other
 			let gflen = u16::from_be_bytes([e[0], e[1]]) as usize;
-			off >= 2 && off < 2 + gflen
+			let lflen = u16::from_be_bytes([e[2 + gflen], e[3 + gflen]]) as usize;
+			(off >= 2 && off < 2 + gflen) || (off >= 4 + gflen && off < 4 + gflen + lflen)
 		},
 	));
 	t.push(spec(
